@@ -1,10 +1,11 @@
-\* C18, code as it stands, STRICT property: this configuration is EXPECTED TO FAIL - TLC exhibits the
+\* C18, code BEFORE the C18 repairs (Fixed = {}), STRICT property: EXPECTED TO FAIL - TLC exhibits the
 \* lifted ban.  As written: BanHolds violated after 11 steps through deviation tempOverPerm (two
 \* handshakes in flight: the one that decided "temporary" records its ban after the one that decided
 \* "permanent").  With Fixed = {"order"}: BanHolds violated through unbanLive (the `go UnbanIP`
 \* spawned for an expired ban runs after the address was banned again and deletes the new ban).
 \* With Acts = {"Blk", "Query", "Tick", "Unbl"} and INVARIANTS BlacklistHolds: the same shape for
-\* `go RemoveFromBlacklist` (unblLive).  With Fixed = {"unban", "unbl", "order"} everything passes.
+\* `go RemoveFromBlacklist` (unblLive); with Fixed = {"unban", "unbl", "order"} still BlacklistHolds through
+\* expiredShadows (Blk ip - expiry - Blk net - Query).  With all four repairs everything passes.
 \* Documentation only, not part of ./check: the same counterexamples are generated as behaviours
 \* by BruteForce_gen.cfg with EmitActs {"dev"} and replayed on the real code.
 \*     tlc -config BruteForce_asis_strict.cfg BruteForce.tla
